@@ -10,7 +10,7 @@ use std::collections::BTreeMap;
 const HANDLES: [&str; 4] = ["!", "!!", "!e!", "!f!"];
 const PREFIXES: [&str; 3] = ["!loc-", "tag:x.org,2000:", "tag:y/"];
 /// (spelling, handle, decoded suffix, verbatim)
-const SPELLINGS: [(&str, &str, &str, bool); 15] = [
+const SPELLINGS: [(&str, &str, &str, bool); 17] = [
     ("", "", "", false),
     ("!", "", "", false), // the non-specific tag
     ("!a", "!", "a", false),
@@ -24,6 +24,9 @@ const SPELLINGS: [(&str, &str, &str, bool); 15] = [
     ("!!a.b%2Fc", "!!", "a.b/c", false),
     ("!!st%72", "!!", "str", false),
     ("!e!p/q.r-s", "!e!", "p/q.r-s", false),
+    // a suffix that decodes to exactly "!" is not the non-specific tag
+    ("!e!%21", "!e!", "!", false),
+    ("!%21", "!", "!", false),
     ("!<tag:v>", "", "tag:v", true),
     ("!<!v>", "", "!v", true),
     ("!<tag:%C3%A9>", "", "tag:é", true),
@@ -265,7 +268,7 @@ pub fn replay(case: &Value) -> Result<Acc, String> {
 
 pub fn check(tier: Tier) -> i32 {
     let mut rep = Report::new("C16", tier, "model_checking");
-    rep.rule = "abstract values: documents = (sequence of 0-3 %TAG directives over handles {!, !!, !e!, !f!} x prefixes {!loc-, tag:x.org,2000:, tag:y/}, optional %YAML 1.2 at any position among them, one of 15 tag spellings (none, '!', local, secondary, named handles, percent-encoded suffixes incl. multi-byte UTF-8, verbatim tags; plus every character a tag may contain literally, in suffixes, prefixes and verbatim tags) on a scalar / block sequence / flow mapping); streams of 1, 2 and (thorough) 3 documents separated by '...' or a bare '---', with keep_tags off and on. Oracle: a per-document handle table (defaults, or the previous table when keep_tags is set; all directives of a document in force together; a handle repeated within a document and an undeclared named handle are errors); the tag reported for each root node, as the string handle+suffix, equals prefix + percent-decoded suffix. Non-trivial: every stream; distinct: distinct (directive sets, spellings, node kinds, separators, keep_tags).".into();
+    rep.rule = "abstract values: documents = (sequence of 0-3 %TAG directives over handles {!, !!, !e!, !f!} x prefixes {!loc-, tag:x.org,2000:, tag:y/}, optional %YAML 1.2 at any position among them, one of 17 tag spellings (none, '!', local, secondary, named handles, percent-encoded suffixes incl. multi-byte UTF-8, verbatim tags; plus every character a tag may contain literally, in suffixes, prefixes and verbatim tags) on a scalar / block sequence / flow mapping); streams of 1, 2 and (thorough) 3 documents separated by '...' or a bare '---', with keep_tags off and on. Oracle: a per-document handle table (defaults, or the previous table when keep_tags is set; all directives of a document in force together; a handle repeated within a document and an undeclared named handle are errors); the tag reported for each root node, as the string handle+suffix, equals prefix + percent-decoded suffix. Non-trivial: every stream; distinct: distinct (directive sets, spellings, node kinds, separators, keep_tags).".into();
     rep.assumptions = vec!["prefixes contain no '%' (the statement speaks of decoding the suffix only)".into(), "with keep_tags, a later document may re-declare a handle kept from an earlier document".into()];
     let budget = Budget::new(wall_cap(tier));
     rep.mandatory_scopes = 2;
